@@ -53,6 +53,7 @@ type brHarness struct {
 	taxCfg       map[int][3]string
 	taxRate      map[int][2]int64  // token -> (num, den) of the configured rate
 	taxEx        map[int]int       // token -> exempt user (0 = none)
+	sibling      string            // C13: a second chain with the same deployment id and the same validator keys ("" = none)
 	lastTax      map[int][3]string // token -> (rate string as submitted, n, d) of the setting in force
 	lastLimit    map[int][2]string // token -> (period index, limit) of the setting in force
 	limits       map[int][2]int64  // period, start of current window (tracked by harness only for generation)
@@ -398,6 +399,28 @@ func runBridgeCase(t *testing.T, r *Rec, prop string, nops int) {
 	e.addToken(spell[1], "0x1000000000000000000000000000000000000002")
 	for tk := 1; tk <= b.nTok; tk++ {
 		b.fundedSupply[tk], b.minted[tk], b.burnt[tk] = new(big.Int), new(big.Int), new(big.Int)
+	}
+	if prop == "C13" {
+		// a second supported chain whose compass carries the SAME deployment id (the id is the deployment's block height:
+		// chains deployed together share it) and on which every validator uses the same remote key: a genuine
+		// confirmation of a batch of the first chain, replayed as evidence NAMING this chain, is over a checkpoint the
+		// chain issued all the same
+		const sibling = "sibling-chain"
+		if err := e.in.EvmKeeper.AddSupportForNewChain(e.ctx, sibling, 2, 123, "0x1234", big.NewInt(55)); err != nil {
+			t.Fatal(err)
+		}
+		if err := e.in.EvmKeeper.ActivateChainReferenceID(e.ctx, sibling, &evmtypes.SmartContract{Id: 1}, "0x1234567890123456789012345678901234567891", []byte(skyCompass)); err != nil {
+			t.Fatal(err)
+		}
+		for i, v := range skykeeper.ValAddrs {
+			addr := crypto.PubkeyToAddress(skykeeper.EthPrivKeys[i].PublicKey)
+			if err := e.in.ValsetKeeper.AddExternalChainInfo(e.ctx, v, []*valsettypes.ExternalChainInfo{
+				{ChainType: "evm", ChainReferenceID: skyChain, Address: addr.Hex(), Pubkey: addr.Bytes()},
+				{ChainType: "evm", ChainReferenceID: sibling, Address: addr.Hex(), Pubkey: addr.Bytes()}}); err != nil {
+				t.Fatal(err)
+			}
+		}
+		b.sibling = sibling
 	}
 	b.emit("reset 2", "ok")
 	for u := 1; u <= 3; u++ {
@@ -985,8 +1008,15 @@ func (b *brHarness) evidenceOp() {
 	}
 	jailedBefore := b.jailedList()
 	b.e.fault.Reset("", 0)
+	// a genuine confirmation (of a checkpoint issued since the last export / import) may be replayed under the name of
+	// the sibling chain: same deployment id, same key - the same checkpoint, issued by the chain
+	named := skyChain
+	if variant == 0 && kid != 0 && b.sibling != "" && ckIdx >= b.reimportedAt && r.Rng.Intn(3) == 0 {
+		named = b.sibling
+		r.Stat("evidence.named_sibling_chain")
+	}
 	res := e.runMsg(func(ctx sdk.Context) error {
-		_, err := e.ms.SubmitBadSignatureEvidence(ctx, &skytypes.MsgSubmitBadSignatureEvidence{Subject: any, Signature: hex.EncodeToString(sig), ChainReferenceId: skyChain, Metadata: e.meta(e.users[0])})
+		_, err := e.ms.SubmitBadSignatureEvidence(ctx, &skytypes.MsgSubmitBadSignatureEvidence{Subject: any, Signature: hex.EncodeToString(sig), ChainReferenceId: named, Metadata: e.meta(e.users[0])})
 		return err
 	})
 	op := fmt.Sprintf("evidence %d %d %d %d %s", ck.tok, ck.nonce, ext.GasEstimate, variant, signerS)
